@@ -1,6 +1,7 @@
 """Fault injection helpers shared by the checks: a family of exception classes (with and without a message) so that an
 'agent / callback / work function raises' fault is not tied to one exception type."""
 import asyncio
+import os
 import concurrent.futures
 import socket
 
@@ -12,6 +13,19 @@ class Boom(Exception):
 EXC_CLASSES = [Boom, TimeoutError, socket.timeout, asyncio.TimeoutError, concurrent.futures.TimeoutError, RuntimeError, ValueError, KeyError,
                LookupError, OSError, ConnectionError, ConnectionResetError, PermissionError, AssertionError, ZeroDivisionError, AttributeError,
                TypeError, StopIteration, NotImplementedError, MemoryError, RecursionError, ArithmeticError, EOFError, InterruptedError, IndexError]
+
+
+class Unprintable(Exception):
+    """a user exception whose own __str__/__repr__ fail (e.g. a message template applied to the wrong field types)"""
+
+    def __str__(self):
+        raise TypeError("%d format: a real number is required, not NoneType")
+
+    __repr__ = __str__
+
+
+if os.environ.get("VERIF_UNPRINTABLE") == "1":
+    EXC_CLASSES.append(Unprintable)
 
 
 def make_exception(index, message="injected fault"):
